@@ -961,7 +961,11 @@ class OmniParser(PVLParser):
         all whitespace characters that begin the next line will
         be removed.
         """
-        dash_re = re.compile(r"-[\n\r\f]\s*")
+        # Only the grammar's own white space characters may follow the
+        # line end (\s would also take other Unicode "white space", which
+        # a strict grammar has to get to see, to reject it).
+        ws = re.escape("".join(self.grammar.whitespace))
+        dash_re = re.compile(fr"-[\n\r\f][{ws}]*")
         nodash = dash_re.sub("", s)
         self.doc = nodash
         self._continuations = []
